@@ -119,6 +119,8 @@ def rust_literal(te, v):
     if k == "string": return "%s.to_string()" % rs_str(v)
     if k == "option": return "None" if v is None else "Some(%s)" % rust_literal(te[1], v)
     if k == "vec": return "vec![%s]" % ", ".join(rust_literal(te[1], x) for x in v)
+    if k == "map":
+        return "::std::collections::%s::from([%s])" % (te[1], ", ".join("(%s.to_string(), %s)" % (rs_str(kk), rust_literal(te[2], x)) for kk, x in sorted(v.items())))
     raise ValueError(te)
 
 
@@ -440,6 +442,11 @@ class _Gen:
                 f["mode"] = "default_fn"; f["dvalue"] = self.scalar_value(f["ty"], nonzero=True)
             elif "default_fn" in F and roll < 0.66 and f["ty"] == ["vec", ["int", "u8"]]:
                 f["mode"] = "default_fn"; f["dvalue"] = [1, 2]
+            elif "default_fn" in F and roll < 0.75 and k == "map" and f["ty"][2][0] in ("int", "string", "bool"):
+                # a NON-EMPTY map as the default: an explicitly empty map is then a value of its own, not "absent"
+                f["mode"] = "default_fn"; f["dvalue"] = {"tier": self.scalar_value(f["ty"][2], nonzero=True)}
+            elif "default_fn" in F and roll < 0.75 and k == "vec" and f["ty"][1][0] in ("string", "bool"):
+                f["mode"] = "default_fn"; f["dvalue"] = [self.scalar_value(f["ty"][1], nonzero=True)]
             elif "default_fn" in F and roll < 0.80 and k == "option" and f["ty"][1][0] in ("int", "string", "bool"):
                 # Some(value) as the default of a nullable member, the ZERO value of the wrapped type included
                 zero = {"int": 0, "string": "", "bool": False}[f["ty"][1][0]]
